@@ -91,7 +91,9 @@ def run_batch_ext(ctx, cases, want_may=True, tag='cvx'):
         if isinstance(o, str):
             raise RuntimeError('oracle error %s on %s' % (o, q[0]))
         if kind == 'must':
-            ev.must |= set(O.U(p) for p in o)
+            got_ = set(O.U(p) for p in o)
+            ev.must |= got_
+            ev.raw.setdefault('_must_by_tx', {}).setdefault(tx_id, set()).update(got_)
         else:
             cur = real[id(ev)]
             flags = [bool(b) for b in o]
